@@ -146,6 +146,15 @@ open MapD in
 def handleMap (cmd : String) (args : List String) : Option String :=
   match cmd, args with
   | "map.read", [kind, d] => do let b ← dataExpr? d; let r ← readAs kind b; pure (showOutcome r)
+  | "map.readat", [kind, skip, d] => do
+      let b ← dataExpr? d; let skip ← skip.toNat?
+      if skip > b.length then none
+      let r ← readAs kind (b.drop skip)
+      match r with
+      | .ok m n =>
+        let r2 ← readAs kind (b.drop (skip + n))
+        pure s!"{dumpMap m n} 2nd={showOutcome r2}"
+      | o => pure (showOutcome o)
   | "map.file", [kind, d] => do
       let b ← dataExpr? d; let r ← readAs kind b
       pure (match r with
